@@ -132,10 +132,15 @@ Apply(w, mv) ==
     [] mv.name = "dup"      -> [w EXCEPT !.dos = InsertAt(w.dos, mv.i, w.dos[mv.i])]
     [] mv.name = "swap"     -> [w EXCEPT !.dos = SwapAt(w.dos, mv.i)]
     [] mv.name = "extra"    -> [w EXCEPT !.dos = InsertAt(w.dos, mv.i, DO(128, Junk))]
-    [] mv.name = "forge87"  -> [w EXCEPT !.dos = InsertAt(w.dos, 1, DO(87, Junk))]
+    \* an unauthenticated DO'87': junk (i = 0) or the cryptogram of the earlier response i, in front of the genuine
+    \* objects (x = 0) or behind them, i.e. after DO'8E' (x = 1: a decoder that MACs only what precedes the MAC
+    \* object but looks data objects up anywhere would deliver it)
+    [] mv.name = "forge87"  -> [w EXCEPT !.dos = InsertAt(w.dos, IF mv.x = 0 THEN 1 ELSE Len(w.dos) + 1,
+                                                           DO(87, IF mv.i = 0 THEN Junk ELSE FirstVal(seen[mv.i].dos, 87)))]
     \* an unauthenticated DO'85' (the other cryptogram tag, which Decode prefers) in front of the genuine objects,
     \* carrying junk (i = 0) or the cryptogram of an earlier response (i = j): the genuine DO'87' / DO'99' / DO'8E' stay
-    [] mv.name = "forge85"  -> [w EXCEPT !.dos = InsertAt(w.dos, 1, DO(133, IF mv.i = 0 THEN Junk ELSE FirstVal(seen[mv.i].dos, 87)))]
+    [] mv.name = "forge85"  -> [w EXCEPT !.dos = InsertAt(w.dos, IF mv.x = 0 THEN 1 ELSE Len(w.dos) + 1,
+                                                           DO(133, IF mv.i = 0 THEN Junk ELSE FirstVal(seen[mv.i].dos, 87)))]
 
 RespMoves(w) ==
   { Mv("short", 0, 0), Mv("garbage", 0, 0) }
@@ -150,8 +155,7 @@ RespMoves(w) ==
         \cup { Mv("dup", i, 0) : i \in 1..Len(w.dos) }
         \cup { Mv("swap", i, 0) : i \in 1..(Len(w.dos) - 1) }
         \cup { Mv("extra", i, 0) : i \in 1..Len(w.dos) }
-        \cup { Mv("forge87", 0, 0) }
-        \cup { Mv("forge85", j, 0) : j \in {0} \cup {i \in 1..Len(seen) : FirstVal(seen[i].dos, 87) # NoVal} })
+        \cup { Mv(n, j, x) : n \in {"forge87", "forge85"}, j \in {0} \cup {i \in 1..Len(seen) : FirstVal(seen[i].dos, 87) # NoVal}, x \in {0, 1} })
 
 AdvMove(mv) ==
   /\ phase = "resp"
